@@ -93,16 +93,26 @@ def oracles(line, hfields, findings, pid):
     ops = line.split("\t")[2:]
     viol, known = [], []
     prev = {"A": {}, "B": {}, "R": {}}
-    written = {"A": {}, "B": {}}     # digests whose Cas.Write returned ok in the current process -> guard value
+    written = {"A": {}, "B": {}}     # digests whose Cas.Write (wrapper) returned ok in the current process -> local-only before?
+    stale = {"A": set(), "B": set()}   # digests the current process remembers as stored that were deleted from the remote since
     for i, (op, hf) in enumerate(zip(ops, hfields)):
         cls, st = parse_obs(hf)
         f = op.split(":")
         if f[0] == "reset":
             written[f[1]] = {}
+            stale[f[1]] = set()
+        elif f[0] == "b" and f[3] == "del" and f[2] == "w" and f[4] == "cas":
+            # premise of C08_no_dangling (stored_in_remote), per digest: what a process remembers as stored is still in the
+            # remote; after a delete through the wrapper a Cas.Write of that digest by a process that remembers it says
+            # nothing (it is skipped) until the process is restarted
+            for mm in written:
+                if f[5] in written[mm]:
+                    del written[mm][f[5]]
+                    stale[mm].add(f[5])
         elif f[0] == "c" and f[3] == "write" and cls == "ok":
             d = f[4]
-            if f[2] == "w":
-                # guard of C08_no_dangling_partial for this blob: local-only before the write?
+            if f[2] == "w" and d not in stale[f[1]]:
+                # class of finding C08-F1 (repaired) for this blob: local-only before the write?
                 written[f[1]][d] = ("cas/" + d in prev[f[1]]) and ("cas/" + d not in prev["R"])
         elif f[0] == "c" and f[3] == "load" and cls.startswith("ok="):
             h = cls[3:]
@@ -127,7 +137,9 @@ def oracles(line, hfields, findings, pid):
                                       "Cas.Write (in the local cache, not in the remote, before the write); ops: %s" % (i, f[4], d[:12], " ".join(ops[:i + 1])[:400])))
                     else:
                         viol.append(("op %d: after a successful result write the remote lacks blob %s.. although Cas.Write of it "
-                                     "returned ok in this process and the guard (local-only before the write) is false" % (i, d[:12]), i))
+                                     "returned ok in this process and nothing deleted it since (%s)" % (
+                                         i, d[:12], "the blob was in the local cache but not in the remote before that write: the upload "
+                                         "was skipped" if written[f[1]][d] else "the blob was not local-only before that write"), i))
         # C07/C08, model-free: every blob visible under a content digest (in either local cache or in the remote) has exactly
         # that content -- also after a faulted Set (a writer that saw a clean EOF on a truncated stream would commit a prefix)
         for store, items in st.items():
@@ -179,6 +191,18 @@ def run_inprocess(out, pid, n, harness, findings, local_only=False):
         # ... and read back on machine B through the wrapper while the remote body fails mid-stream (then again, then locally)
         for faults in ("n,n,m", "n,n,m,m", "n,n,n,m"):
             lines.insert(0, "case\t%s\tc:A:w:write:%s:%s\tc:B:w:load:%s\tc:B:w:load:%s\tc:B:l:load:%s" % (faults, d, vlib.hx(BIG), d, d, d))
+        # the situations of finding C08-F1 (repaired), always exercised: a blob that is in A's local cache only -- written without
+        # the remote by an earlier process / asked for with Cas.Exists (local-OR-remote, remembered in the exists-memo) before
+        # the write / left by a tee'd Set whose remote Put failed -- is published through the wrapper, read by machine B;
+        # and the premise of C08_no_dangling: the blob is deleted from the remote while the writing process remembers it
+        small = b"hello"
+        ds = dg(small)
+        pub = "c:A:w:write:%s:%s\tr:A:w:write:r1:%s\tr:B:w:load:r1\tc:B:w:load:%s" % (ds, vlib.hx(small), ds, ds)
+        lines.insert(0, "case\t-\tc:A:l:write:%s:%s\treset:A\t%s" % (ds, vlib.hx(small), pub))
+        lines.insert(0, "case\t-\tc:A:l:write:%s:%s\treset:A\tc:A:w:ex:%s\t%s" % (ds, vlib.hx(small), ds, pub))
+        lines.insert(0, "case\tf\tc:A:w:write:%s:%s\treset:A\t%s" % (ds, vlib.hx(small), pub))
+        lines.insert(0, "case\te\tc:A:w:write:%s:%s\t%s" % (ds, vlib.hx(small), pub))
+        lines.insert(0, "case\t-\tc:A:w:write:%s:%s\tb:B:w:del:cas:%s\t%s" % (ds, vlib.hx(small), ds, pub))
     hout, mout = run_cases(lines, harness, drv)
     stats = {"sequences": n, "ops": 0, "distinct": 0, "mismatching_sequences": 0, "oracle_failures": 0, "known": 0,
              "remote_calls": 0, "faulted_calls": 0, "samples": []}
